@@ -727,6 +727,16 @@ fn ends_in_partial_char(bytes: &[u8]) -> bool {
     matches!(str::from_utf8(bytes), Err(e) if e.error_len().is_none())
 }
 
+/// Error for a numeric escape whose value is not a character. If the input ends
+/// right after its digits, more of them may have been on their way, so that is
+/// reported as the given EOF error instead.
+fn invalid_code_point<'de, R: Read<'de> + ?Sized, T>(read: &mut R, eof: ErrorCode) -> Result<T> {
+    match read.peek()? {
+        Some(_) => error(read, ErrorCode::InvalidUnicodeCodePoint),
+        None => error(read, eof),
+    }
+}
+
 fn needs_escape(c: u8) -> bool {
     c == b'\\' || c == b'"'
 }
@@ -870,7 +880,7 @@ where
                 Ok(ElispEscape::Unibyte)
             }
         }
-        None => error(read, ErrorCode::InvalidUnicodeCodePoint),
+        None => invalid_code_point(read, ErrorCode::EofWhileParsingString),
     }
 }
 
@@ -889,7 +899,7 @@ where
             scratch.extend_from_slice(c.encode_utf8(&mut [0_u8; 4]).as_bytes());
             Ok(ElispEscape::Multibyte)
         }
-        None => error(read, ErrorCode::InvalidUnicodeCodePoint),
+        None => invalid_code_point(read, ErrorCode::EofWhileParsingString),
     }
 }
 
@@ -990,7 +1000,7 @@ fn parse_r6rs_char<'de, R: Read<'de> + ?Sized>(
         match decode_r6rs_char_hex_escape(read)? {
             Some(n) => match char::from_u32(n) {
                 Some(c) => Ok(c),
-                None => error(read, ErrorCode::InvalidUnicodeCodePoint),
+                None => invalid_code_point(read, ErrorCode::EofWhileParsingCharacterConstant),
             },
             None => Ok('x'),
         }
@@ -1171,11 +1181,17 @@ fn decode_elisp_char_escape<'de, R: Read<'de> + ?Sized>(
         }
         b'x' => {
             // Hexadecimal escape, allows arbitrary number of hex digits.
-            decode_elisp_hex_escape(read).and_then(|n| as_char(read, n))
+            decode_elisp_hex_escape(read).and_then(|n| match char::from_u32(n) {
+                Some(c) => Ok(c),
+                None => invalid_code_point(read, ErrorCode::EofWhileParsingCharacterConstant),
+            })
         }
         b'0' | b'1' | b'2' | b'3' | b'4' | b'5' | b'6' | b'7' => {
             // Octal escape, allows arbitrary number of octale digits.
-            decode_elisp_octal_escape(read, ch).and_then(|n| as_char(read, n))
+            decode_elisp_octal_escape(read, ch).and_then(|n| match char::from_u32(n) {
+                Some(c) => Ok(c),
+                None => invalid_code_point(read, ErrorCode::EofWhileParsingCharacterConstant),
+            })
         }
         next => {
             if next > 0x7F {
